@@ -11,6 +11,7 @@ import (
 	"sync"
 	"testing"
 	"testing/synctest"
+	"time"
 
 	"verifharness/hx"
 
@@ -38,6 +39,14 @@ type world struct {
 	mu      sync.Mutex
 	pending map[int]*pend
 	owned   map[int]bool // resources a backend counts as the pod's
+	acc     []int
+	early   int  // request answered while the dispatch loop asks about the next one (0 = none)
+	inEarly bool // the dispatch loop is held in a backend's Allocate
+}
+
+func (w *world) resource(r int) (int, *eni.AllocResp) {
+	id := 100*w.acc[r-1] + r
+	return id, &eni.AllocResp{NetworkConfigs: eni.NetworkResources{&stubRes{id: id, owner: w.acc[r-1]}}}
 }
 
 type stubNI struct {
@@ -47,7 +56,37 @@ type stubNI struct {
 
 func (s *stubNI) Allocate(ctx context.Context, cni *daemon.CNI, request eni.ResourceRequest) (chan *eni.AllocResp, []eni.Trace) {
 	rq, ok := request.(*stubReq)
-	if !ok || rq.acc != s.id {
+	if !ok {
+		return nil, nil
+	}
+	s.w.mu.Lock()
+	var ep *pend
+	if s.w.early > 0 && rq.idx == s.w.early+1 {
+		// this backend is slow to answer the dispatch loop (Local.Allocate waits for the interface's lock): the answer
+		// to the previous request comes in meanwhile
+		ep = s.w.pending[s.w.early]
+		delete(s.w.pending, s.w.early)
+		if ep != nil {
+			s.w.inEarly = true
+		}
+		s.w.early = 0
+	}
+	s.w.mu.Unlock()
+	if ep != nil {
+		id, resp := s.w.resource(rq.idx - 1)
+		select {
+		case <-ep.ctx.Done():
+		case ep.ch <- resp:
+			s.w.mu.Lock()
+			s.w.owned[id] = true
+			s.w.mu.Unlock()
+		}
+		time.Sleep(time.Millisecond) // the manager collects it
+		s.w.mu.Lock()
+		s.w.inEarly = false
+		s.w.mu.Unlock()
+	}
+	if rq.acc != s.id {
 		return nil, nil
 	}
 	ch := make(chan *eni.AllocResp)
@@ -73,14 +112,16 @@ func (s *stubNI) Run(ctx context.Context, podResources []daemon.PodResources, wg
 	return nil
 }
 
-func evalIn(in []*big.Int) []*big.Int {
+func evalIn(in []*big.Int) (in2, out []*big.Int) {
+	var ib hx.B
+	in2 = in
 	d := hx.NewD(in)
 	if d.Int() != 99 {
-		return nil
+		return
 	}
 	nr := d.Int()
 	if nr < 0 || nr > 6 {
-		return nil
+		return
 	}
 	acc := make([]int, nr)
 	nb := 0
@@ -90,11 +131,26 @@ func evalIn(in []*big.Int) []*big.Int {
 			nb = acc[i]
 		}
 	}
+	early := d.Int()
 	nev := d.Int()
 	if d.Bad || nb > 6 {
-		return nil
+		return
 	}
-	w := &world{pending: map[int]*pend{}, owned: map[int]bool{}}
+	ib.I(99, nr).I(acc...).I(early, nev)
+	w := &world{pending: map[int]*pend{}, owned: map[int]bool{}, acc: acc, early: early}
+	settle := func() {
+		synctest.Wait()
+		for {
+			w.mu.Lock()
+			held := w.inEarly
+			w.mu.Unlock()
+			if !held {
+				return
+			}
+			time.Sleep(time.Millisecond)
+			synctest.Wait()
+		}
+	}
 	var nis []eni.NetworkInterface
 	for b := 1; b <= nb; b++ {
 		nis = append(nis, &stubNI{id: b, w: w})
@@ -116,11 +172,15 @@ func evalIn(in []*big.Int) []*big.Int {
 		res, err, done = r, e, true
 		w.mu.Unlock()
 	}()
-	synctest.Wait()
+	settle()
 	for i := 0; i < nev && !d.Bad; i++ {
 		switch d.Int() {
 		case 1:
 			r, kind := d.Int(), d.Int()
+			ib.I(1, r, kind)
+			if r < 1 || r > nr {
+				continue
+			}
 			w.mu.Lock()
 			p := w.pending[r]
 			delete(w.pending, r)
@@ -133,8 +193,7 @@ func evalIn(in []*big.Int) []*big.Int {
 				synctest.Wait()
 				continue
 			}
-			id := 100*acc[r-1] + r
-			resp := &eni.AllocResp{NetworkConfigs: eni.NetworkResources{&stubRes{id: id, owner: acc[r-1]}}}
+			id, resp := w.resource(r)
 			if kind == 1 {
 				resp = &eni.AllocResp{Err: fmt.Errorf("injected: backend failed")}
 			}
@@ -153,16 +212,57 @@ func evalIn(in []*big.Int) []*big.Int {
 			}()
 			synctest.Wait()
 		case 2:
+			ib.I(2)
 			cancel()
 			synctest.Wait()
+		case 3:
+			// the caller's context ends in the very instant in which the backend answers
+			r, kind := d.Int(), d.Int()
+			d.Int() // placeholder for the observation
+			taken := false
+			var p *pend
+			if r >= 1 && r <= nr {
+				w.mu.Lock()
+				p = w.pending[r]
+				delete(w.pending, r)
+				w.mu.Unlock()
+			}
+			if p != nil && kind != 0 && kind != 1 {
+				close(p.ch)
+			} else if p != nil {
+				id, resp := w.resource(r)
+				if kind == 1 {
+					resp = &eni.AllocResp{Err: fmt.Errorf("injected: backend failed")}
+				}
+				go func() {
+					select {
+					case <-p.ctx.Done():
+					case p.ch <- resp:
+						// the answer is with the manager's goroutine for this request, which has not run yet
+						cancel()
+						w.mu.Lock()
+						taken = true
+						if kind == 0 {
+							w.owned[id] = true
+						}
+						w.mu.Unlock()
+					}
+				}()
+				synctest.Wait()
+			}
+			cancel()
+			synctest.Wait()
+			w.mu.Lock()
+			ib.I(3, r, kind).Bool(taken)
+			w.mu.Unlock()
 		default:
-			return nil
+			return in, nil
 		}
 	}
 	if d.Bad {
 		cancel()
 		synctest.Wait()
-		return nil
+		return in, nil
 	}
 	cancel() // the caller's context always ends
 	synctest.Wait()
@@ -170,7 +270,7 @@ func evalIn(in []*big.Int) []*big.Int {
 	fin := done
 	w.mu.Unlock()
 	if !fin {
-		return []*big.Int{big.NewInt(-7)} // Allocate outlived its context
+		return ib.L, []*big.Int{big.NewInt(-7)} // Allocate outlived its context
 	}
 	if err != nil {
 		_ = m.Release(context.Background(), cni, &eni.ReleaseRequest{NetworkResources: res})
@@ -190,13 +290,13 @@ func evalIn(in []*big.Int) []*big.Int {
 	sort.Ints(own)
 	var o hx.B
 	o.Bool(err != nil).Ints(ret).Ints(own)
-	return o.L
+	return ib.L, o.L
 }
 
 var curT *testing.T
 
-func eval(in []*big.Int) (out []*big.Int) {
-	synctest.Test(curT, func(t *testing.T) { out = evalIn(in) })
+func eval(in []*big.Int) (in2, out []*big.Int) {
+	synctest.Test(curT, func(t *testing.T) { in2, out = evalIn(in) })
 	return
 }
 
@@ -219,6 +319,12 @@ func gen(r *hx.Rand) [][]*big.Int {
 			}
 			b.I(a)
 		}
+		// an answer that comes in while the dispatch loop is still busy with the next request
+		early := 0
+		if nr >= 2 && rr.Chance(1, 4) {
+			early = rr.Range(1, nr-1)
+		}
+		b.I(early)
 		// answers in any order, most of them resources; requests may stay unanswered; a cancellation anywhere
 		var evs [][]int
 		perm := make([]int, nr)
@@ -242,6 +348,10 @@ func gen(r *hx.Rand) [][]*big.Int {
 		if rr.Chance(1, 3) {
 			at := rr.Intn(len(evs) + 1)
 			evs = append(evs[:at], append([][]int{{2}}, evs[at:]...)...)
+		} else if len(evs) > 0 && rr.Chance(1, 3) {
+			// the cancellation arrives together with one of the answers
+			at := rr.Intn(len(evs))
+			evs[at] = []int{3, evs[at][1], evs[at][2], 0}
 		}
 		if rr.Chance(1, 10) && nr > 0 {
 			evs = append(evs, []int{1, rr.Range(1, nr), 0}) // a second answer for a request already answered
@@ -257,5 +367,5 @@ func gen(r *hx.Rand) [][]*big.Int {
 
 func TestVerif_Mgr(t *testing.T) {
 	curT = t
-	hx.Run(t, gen, eval)
+	hx.Run2(t, gen, eval)
 }
